@@ -20,7 +20,8 @@ Inductive value :=
 | VBit (bits v : N)
 | VFloat (bits : N)                                       (* FLOAT, as its IEEE-754 single bit pattern *)
 | VDouble (bits : N)
-| VJson (doc : jv).
+| VJson (doc : jv)
+| VRow (members v : N) (z : Z).                           (* a row: an ENUM column followed by an INT column *)
 
 (* JSON documents dolt can hold: byte strings below MySQL's 2^21-1 string limit, object keys (unique, in byte
    order) below 2^16 bytes, float64 numbers, nesting depth at most 60 *)
@@ -94,6 +95,8 @@ Definition in_domain (v : value) : bool :=
   | VFloat bits => bits <? 4294967296
   | VDouble bits => bits <? 18446744073709551616
   | VJson doc => jv_ok 60 doc
+  | VRow members v z => (1 <=? members) && (members <=? 65535) && (v <=? members)
+                        && (- 2147483648 <=? z)%Z && (z <? 2147483648)%Z
   end.
 
 Definition opt_eqb {A} (eq : A -> A -> bool) (a : option A) (b : A) : bool :=
@@ -124,4 +127,8 @@ Definition decodes_to (v : value) (b : bytes) : bool :=
   | VFloat bits => opt_eqb N.eqb (dec_float b) bits
   | VDouble bits => opt_eqb N.eqb (dec_double b) bits
   | VJson doc => opt_eqb jv_eqb (dec_json_doc 64 b) doc
+  | VRow members v z =>
+    (* the decoder takes the width of the ENUM cell from the column metadata and reads the INT after it *)
+    let w := enum_width members in
+    opt_eqb N.eqb (dec_enum members (firstn w b)) v && opt_eqb Z.eqb (dec_sint 4 (skipn w b)) z
   end.
